@@ -143,6 +143,10 @@ def run_labels(ck):
     pdoc = [c for c in ok if not c["parser_doc_ok"]]
     ck.obligation("parsers store encodeLabels(sanitizeLabels(labels as sent)) as the series document", not pdoc,
                   json.dumps(pdoc[0]["skipped"])[:600] if pdoc else "")
+    infl = [c for c in ok if c.get("influx") not in ("", "ok", None)]
+    ninfl = sum(1 for c in ok if c.get("influx") == "ok")
+    ck.obligation("InfluxDB line protocol (tags through a Go map): fingerprint = fingerprintLabels(sanitizeLabels(measurement :: tags)) on %d sets" % ninfl,
+                  not infl and ninfl > 0, infl[0]["influx"] if infl else "no applicable set generated")
     # fingerprints distinct for distinct label multisets (a TEST over the generated sets, not a theorem)
     byfp = {}
     coll = []
@@ -187,6 +191,10 @@ def run_labels(ck):
         c = min(pdoc, key=size)
         ck.violation({"property": "C04", "part": "labels", "kind": "a parser stores a different label document than encodeLabels(sanitizeLabels(sent))",
                       "case": c, "readable": show_labels(c), "replay": "seriesid --mode labels --cases <file with this case>"})
+    if infl and not ck.violations:
+        c = min(infl, key=size)
+        ck.violation({"property": "C04", "part": "labels", "kind": "fingerprint through the InfluxDB parser differs from the fingerprint of its sanitized label set",
+                      "case": c, "readable": show_labels(c), "detail": c["influx"], "replay": "seriesid --mode labels --cases <file with this case>"})
     if (res["M_san"] or res["M_fp"] or res["M_doc"]) and not ck.violations:
         ids_ = res["M_san"] + res["M_fp"] + res["M_doc"]
         c = worst(ids_)
